@@ -275,7 +275,8 @@ class Reread(object):
                 self.violation(replay)
             chk.dist('corrupt:harmless')
         else:
-            replay.update(kind='corrupt file not answered with CANT_REREAD', answer=repr(r))
+            replay.update(kind='corrupt file not answered with CANT_REREAD (through the XML-RPC handler: %r)' % (r[1:],),
+                          answer=repr(r), new_file=bad_bytes if isinstance(bad_bytes, str) else None)
             self.violation(replay)
             chk.dist('corrupt:other')
         return r
@@ -335,6 +336,11 @@ def run_reread(chk, wd):
         old_text, _ = rr.files(c['old'], c['old'])
         _, bad = rr.files(c['old'], c['bad'])
         rr.corrupt(old_text, bad, 'badoption:' + c['label'], must_fail=True)
+    # %-format payloads in every expanded option of every section kind
+    fcases = c15_gen.format_corruption_cases(rr.base, chk.tier)
+    for label, old_text, bad_text, must in fcases:
+        rr.corrupt(old_text, bad_text, label, must_fail=must)
+        chk.dist('corrupt-format')
     ncorr = 12 if quick else 150
     for i in range(ncorr):
         old, new, _ = c15_gen.random_pair(rng)
@@ -348,6 +354,10 @@ def run_reread(chk, wd):
     rr.ne.flush()
     rr.world.close()
     chk.note('reread: %d real rereads in %.1fs (%d single-option pairs)' % (rr.n, time.time() - t0, n_single))
+    if rr.world.xml_hostile:
+        chk.note('%d CANT_REREAD faults whose text quotes a control character of the file were not well-formed XML '
+                 '(XML-RPC limitation, see C16-xmlctl); judged on the method answer' % rr.world.xml_hostile)
+        chk.dist('corrupt:fault-text-not-xml-safe', rr.world.xml_hostile)
     return rr
 
 
